@@ -272,6 +272,22 @@ def run(ctx):
         for (g, c, where, ok, detail) in ef.checked_sites:
             ctx.check(ok, "R8.4", "%s:propagate:%s->%s" % (m.name, g, c), where,
                       "error of %s dropped in %s: %s" % (g, c, detail))
+    # the flags the preconditions of R8.3 test mean what the thread model documents: is_running exactly in the
+    # running state, is_active exactly in running, cooling and warming (C04 R4.3's evaluation of thread_set_state)
+    from rules import C04 as _c04
+    from ovsa.engine import Ctx as _Ctx
+    sub4 = _Ctx("C04", prog, ctx.root, "quick")
+    _c04.run(sub4)
+    n4 = 0
+    for i_ in sub4.instances:
+        if i_["rule"] == "R4.3" and i_["inst"].startswith("thread_set_state:TH_ST_"):
+            n4 += 1
+            if i_["ok"]:
+                ctx.ok("R8.3", "thread-flags:" + i_["inst"], i_["where"])
+            else:
+                ctx.fail("R8.3", "thread-flags:" + i_["inst"], i_["where"], i_["what"] +
+                         " (the models' thread-state preconditions are tested on these flags)")
+    ctx.need(n4 >= 6, "R8.3: thread flag instances not found (%d)" % n4)
     # the end-of-trace lint visits every thread
     from rules import listlinks
     listlinks.check(ctx, "R8.4", lambda file, name: file.startswith("src/emu/") and file.endswith("/setup.c") and
